@@ -414,7 +414,7 @@ def _apply_sub(sub, text, fname):
     optional = sub.startswith('?')
     if optional:
         sub = sub[1:]
-    m = re.match(r'\s*"((?:[^"\\]|\\.)*)"\s*=>\s*"((?:[^"\\]|\\.)*)"\s*(?:x(\d+))?\s*$', sub)
+    m = re.match(r'\s*"((?:[^"\\]|\\.)*)"\s*=>\s*"((?:[^"\\]|\\.)*)"\s*(?:x(\d+))?\s*(?:#(\d+))?\s*$', sub)
     if not m:
         raise Undecided('template error: bad //@sub %s' % sub)
     old = bytes(m.group(1), 'utf-8').decode('unicode_escape')
@@ -425,6 +425,13 @@ def _apply_sub(sub, text, fname):
         return text, 0      # a pure path-resolution substitution: nothing to resolve in this body
     if cnt != want:
         raise Undecided('lost anchor in fn %s: %r occurs %d times, expected %d' % (fname, old, cnt, want))
+    if m.group(4):
+        # `xN #k`: N occurrences expected, only the k-th (1-based) is replaced
+        k = int(m.group(4))
+        pos = -1
+        for _ in range(k):
+            pos = text.index(old, pos + 1)
+        return text[:pos] + new + text[pos + len(old):], 1
     return text.replace(old, new), cnt
 
 
